@@ -8,7 +8,10 @@ import (
 	"sync"
 
 	"github.com/alibaba/RedisShake/pkg/libs/log"
+	"github.com/alibaba/RedisShake/redis-shake/base"
+	utils "github.com/alibaba/RedisShake/redis-shake/common"
 	conf "github.com/alibaba/RedisShake/redis-shake/configure"
+	"github.com/alibaba/RedisShake/redis-shake/metric"
 )
 
 // LogCapture collects everything the tool logs during a run.
@@ -133,6 +136,10 @@ func ErrClass(line string) string {
 // DefaultOptions resets the tool's global configuration to what SanitizeOptions
 // leaves for an all-default configuration file of the given mode.
 func DefaultOptions(mode string) {
+	// process-global state of the tool that would otherwise leak from one simulated run into the next
+	metric.MetricMap = new(sync.Map)
+	base.Status = "null"
+	utils.TargetRoundRobin = 0
 	conf.Options = conf.Configuration{
 		Id:                     "redis-shake-default",
 		LogLevel:               "info",
